@@ -103,7 +103,8 @@ PROPS["C02"] = dict(
 
 PROPS["C04"] = dict(
     prefix="c04_",
-    overlays=[("lib.rs", "vk_c04.rs"), ("parse", "vk_c04p.rs")],
+    overlays=[("lib.rs", "vk_c04.rs"), ("parse", "vk_c04p.rs"), ("parse", "vk_c10.rs")],
+    extra_harnesses=dict(quick=["c10_q_attach_step_any_context"], thorough=[]),
     bounds="chunk payloads <= 58 bytes with every attribute byte symbolic (string-length bytes concrete 0/1), <= 5 layers "
            "with arbitrary u16 nesting levels, cel tables of <= 2 frames x 2 layers with symbolic link targets",
     outside="real zlib inflate (identity model of unzip), payloads longer than the skeletons, allocation failure (C12), "
@@ -168,6 +169,7 @@ PROPS["C06"] = dict(
         r"c06_._cel_image_.*": dict(mem_gb=12, recursion={r"file::AsepriteFile::write_cel": 2}, timeout=1500),
         r"c06_._(rgba|gray)_.*": dict(mem_gb=14, timeout=1500),
     },
+    extra_harnesses=dict(quick=["c02_q_raw_cel_2x2_2x1"], thorough=["c02_q_raw_cel_2x2_1x2"]),
     jobs_quick=6,
     bounds="2 pixels per format with all byte values; indexed: sparse 2-entry palette {0,3} with symbolic RGBA, all transparent "
            "indices, both background settings; cel chunk header over all attribute values (1x1 payload); cel image on a 1x1 canvas",
@@ -178,12 +180,15 @@ PROPS["C06"] = dict(
 
 PROPS["C08"] = dict(
     prefix="c08_",
-    overlays=[("file", "vk_c08.rs")],
+    overlays=[("file", "vk_c02.rs"), ("file", "vk_c08.rs")],
     per_harness={r"c08_q_tileset_images": dict(mem_gb=12), r"c08_._tilemap_raster.*": dict(mem_gb=8), r"c08_t_tilemap_size_in_tiles": dict(timeout=2400)},
     bounds="geometry: canvas and tile size over all of u16 (tile size >= 1), cel offset over all tile-aligned i16 pairs, lookup "
            "coordinates over all of u32 x u32 (stored map 1x1), stored 2x2 map with coordinates < 300; rasteriser: 2x2 canvas, "
            "tiles 1x1 / 2x1, stored map 2x1, symbolic ids, offsets, opacities, mode; tileset images: 2 tiles of 2x1",
-    outside="larger maps and tiles, grayscale / indexed tilesets (pixel conversion is C06), what the blend functions compute (C03)",
+    outside="the route write_cel -> tilemap rasteriser (which opacity write_cel hands over): three formulations of a harness through "
+            "Cel::image on a tilemap cel exceeded 6-9 GB / 10 min even with both rasterisers replaced by recorders (drop glue of the palette "
+            "hash map is explored from somewhere on that route); the rasteriser unit itself takes layer and cel opacity as separate "
+            "arguments. Larger maps and tiles, grayscale / indexed tilesets (pixel conversion is C06), what the blend functions compute (C03)",
 )
 
 
